@@ -30,8 +30,8 @@ PROPS = {
     "C08": {"lean": ["WorkflowModel.Props.C08"], "suites": SIMADV, "modelled": ENGINE_MODELLED, "assumptions": ["operations atomic with respect to each other"]},
     "C09": {"lean": ["WorkflowModel.Props.C09"], "suites": SIM, "modelled": ENGINE_MODELLED, "assumptions": ["store = reference contract (Latest = newest created run)"]},
     "C10": {"lean": ["WorkflowModel.Props.C10Shard"], "suites": ["pure-shards"] + SIM, "assumptions": []},
-    "C12": {"lean": ["WorkflowModel.Props.C12"], "suites": SIMADV, "modelled": ENGINE_MODELLED, "assumptions": ["one timeout per status (two: finding F19)"]},
-    "C13": {"lean": ["WorkflowModel.Props.C13"], "suites": SIM, "modelled": ENGINE_MODELLED,
+    "C12": {"lean": ["WorkflowModel.Props.C12"], "suites": SIMADV + ["sim-timeouts"], "modelled": ENGINE_MODELLED, "assumptions": ["one timeout per status (two: finding F19)"]},
+    "C13": {"lean": ["WorkflowModel.Props.C13"], "suites": SIM + ["sim-pause"], "modelled": ENGINE_MODELLED,
             "assumptions": ["single instance (the counter is in process memory)", "error-counter key injective on the triples that occur"]},
     "C14": {"lean": ["WorkflowModel.Props.C14"], "suites": SIM, "modelled": ENGINE_MODELLED, "assumptions": []},
     "C15": {"lean": ["WorkflowModel.Props.C15"], "suites": SIMADV, "modelled": ENGINE_MODELLED, "assumptions": ["custom delete function idempotent on already scrubbed objects (the harness's is)"]},
